@@ -132,12 +132,31 @@ def run_C03(ctx):
     corr_run(ctx, "abi", ["abi", "--n", n_cases(ctx, 1000, 50000)], "Artela precompiles under all call kinds (a panic shows as a difference from the model, which never panics)",
              nontrivial=lambda c: len(c["input"]) > 0)
     # known finding F7: the reference journal's work is unbounded; beyond ~2^27 bytes it does not return in reasonable time / memory
+    for word in ("1ffffffffffffffff", "1ffffffffffffffc3"):   # long-form lengths 2^64-1 and 2^64-31
+        probe_word(ctx, word)
     rc, out, dt = probe_f7(ctx, 27, 6)
     if rc != 0 or dt > 4:
         if ctx.is_known("F7"):
             ctx.known_finding("F7", "VRJNAL on a long-form length word 2^27+1 did not finish within %.1f s / 6 GB for its flat 800 gas (rc=%s)" % (dt, rc))
         else:
             ctx.violation("probe_f7", {"kind": "reference journal does not return for a storage word encoding a huge length", "k": 27, "rc": rc, "output": out[-1000:]})
+
+
+def probe_word(ctx, word, limit_s=4):
+    """finding F17 (fixed): VRJNAL on a storage word whose long-form length lies within 31 of 2^64, in a child process under a
+    wall-clock and address-space limit.  Before the fix the slot count wrapped to 0 and the instruction panicked at once;
+    with the true ceiling the instruction starts reading 2^59 slots (known finding F7) and is cut off by the limit."""
+    cmd = "ulimit -v 6000000; exec %s probe-word --word %s" % (driver.VH, word)
+    t0 = driver.time.time()
+    rc, out = driver.sh(["bash", "-c", cmd], timeout=limit_s, env=driver.GOENV)
+    dt = driver.time.time() - t0
+    ctx.evaluations += 1
+    last = (out.strip().split("\n") or [""])[-1]
+    ctx.notes.append("probe-word %s: rc=%s wall=%.1fs %s" % (word, rc, dt, last[:200]))
+    if 'panic="' in out and 'panic=""' not in out:
+        ctx.violation("probe_word", {"kind": "Go panic in the reference journal instruction on a storage word the contract itself can store",
+                                     "program": "RSVJNAL(slot 1) ; VRJNAL(slot 1) with storage[1] = 0x" + word, "replay_cmd": "vh probe-word --word " + word,
+                                     "output": out[-1500:]})
 
 
 def run_C12(ctx):
@@ -199,6 +218,11 @@ def run_C17(ctx):
         p = os.path.join(outdir, f)
         if os.path.exists(p):
             os.remove(p)
+    corr_run(ctx, "cancelrun", ["cancelrun", "--n", n_cases(ctx, 150, 6000)],
+             "Model/Cancel.v (a cancelled frame walks the straight-line path of its code and stops at the first JUMP/JUMPI) vs the interpreter: Cancel() called from the "
+             "CaptureState callback of the k-th instruction (first, last, two random k per program; endless call loops, counted loops with pushes of every width, generated programs; "
+             "Aspects bound), code and program counters of every frame from that moment on",
+             nontrivial=lambda c: c.get("steps_after_cancel", 0) >= 2, has_oracle=True, oracle_prefix="C17")
     n = n_cases(ctx, 24, 400)
     rc, o = driver.sh([driver.VH_RACE, "race", "--n", n, "--seed", str(ctx.seed), "--out", outdir], timeout=3000, env=dict(driver.GOENV, GORACE="halt_on_error=0"))
     races = o.count("WARNING: DATA RACE")
@@ -485,11 +509,13 @@ PROPS.update({
         "run": run_C17,
         "technique": "Coq theorems (copy-on-write of instruction tables from regenerated table dumps; bookkeeping closed after any run, cancelled ones included) + Go race detector over concurrent workers and cross-goroutine Cancel",
         "level_text": "PARTIAL: data races and the Go memory model cannot be expressed in an executable Gallina model. Proved: over regenerated dumps, the package-level instruction tables of all forks are unchanged after interpreters with every extra EIP were built; "
-                      "every entry point closes its bookkeeping for every instruction semantics, hence also for a run whose jumps stop after Cancel. Validated: the harness is built with -race; 8 workers run scenarios (13 fork/EIP combinations, Aspects bound, "
+                      "every entry point closes its bookkeeping for every instruction semantics, hence also for a run whose jumps stop after Cancel; from the moment the abort flag is visible a frame takes no jump any more, walks the straight-line path of its code and stops within length(code)-pc+1 iterations "
+                      "(Model/Cancel.v, for every instruction semantics; the premises - only opJump/opJumpi assign the program counter, only Cancel stores the flag - are read from the syntax trees on every run). "
+                      "Correspondence: Cancel() is called from the tracer callback of the k-th instruction of generated and looping programs, and the code and program counters of every frame from then on are checked against the model. Validated: the harness is built with -race; 8 workers run scenarios (13 fork/EIP combinations, Aspects bound, "
                       "journal instructions) concurrently and compare with sequential results; Cancel is called from another goroutine at random moments on a looping execution with nested calls, which must stop promptly, without panic, with depth and call tree at rest.",
         "level_note": COMMON_NOTE + "Trusted additionally: the Go race detector (it reports races that occur in the explored schedules only). Not modelled: scheduler, sync.Pool, allocator.",
-        "rule": "n jobs (fork x extra-EIP set x join points x entry point) run sequentially once and then twice by each of 8 concurrent workers; n/2+4 cancel trials with a delay of 0-3 ms; non-trivial = any; distinct = (kind, fork, EIPs, job)",
-        "modelled": ["vm/interpreter.go NewEVMInterpreter copy-on-write (as table dumps)", "vm/evm.go Cancel (as: jumps stop)"],
+        "rule": "n jobs (fork x extra-EIP set x join points x entry point) run sequentially once and then twice by each of 8 concurrent workers; n/2+4 cancel trials with a delay of 0-3 ms; cancelrun: n programs (1/4 endless call loops, 1/4 counted loops, 1/2 generated) x 4 cancel moments (first, last, two random instructions), one case per frame that executes after the cancel; non-trivial = any; distinct = (kind, fork, EIPs, job) resp. the frame's code and program counters",
+        "modelled": ["vm/interpreter.go NewEVMInterpreter copy-on-write (as table dumps)", "vm/interpreter.go Run loop control skeleton + vm/instructions.go opJump/opJumpi/makePush + vm/evm.go Cancel (Model/Cancel.v)"],
         "assumptions": ["schedules not explored by the run may still race"],
     },
 })
